@@ -25,7 +25,7 @@ META = {
                    "and subtracted from all four inc/dec kinds found in the whole file.",
     "assumptions": ["u128::is_power_of_two / str::parse::<u128> are std's (the numeric meaning of 'power of two' is theirs)",
                     "DESIGN section 8 / specs/detectors.spec is the oracle (validation of code against a written spec)"],
-    "floors": {"R05.walker": 1, "R05.must": 17, "R05.mustnot": 17, "R05.incdec": 6},
+    "floors": {"R05.walker": 1, "R05.lines": 1, "R05.must": 17, "R05.mustnot": 17, "R05.incdec": 6},
 }
 
 
@@ -35,6 +35,9 @@ def run(ctx, crate):
     obs.append(depend.inherited(ctx, crate, "R05.walker", "analyzer::ast::walk_node_for_targets", "the search reaches every nested position (C01's obligations on the walker)",
                                 "C01", lambda o: o.rule in ("R01.children", "R01.order", "R01.once", "R01.uncond", "R01.preorder", "R01.loops", "R01.entry"),
                                 example="the pattern inside !( .. ) or inside a catch body"))
+    # "a line is reported": the line is the detector's location converted by the shared lookup (C02's obligations on the line function and its use)
+    obs.append(depend.inherited(ctx, crate, "R05.lines", "analyzer::utils::get_line_number", "a finding's line is the line its construct begins on (C02's obligations on the line lookup)",
+                                "C02", lambda o: o.rule in ("R02.canon", "R02.range", "R02.plumb"), example="a multi-byte character in a comment before the construct"))
     spec = speccmp.load_spec()
     sm = summary.Summ(crate)
     d = D.Dispatch(crate, "optimizations")
